@@ -617,7 +617,22 @@ func runPresend(m *mon.M, c *Case) {
 	case "bad-method":
 		method = "PO ST"
 	}
+	consumes := consumesFor(c)
+	switch c.Fault { // a value payload for which no producer can encode the chosen media type: a parameter error before sending
+	case "value-body-on-urlencoded":
+		consumes = []string{"application/x-www-form-urlencoded", "application/json"}
+	case "value-body-on-multipart":
+		consumes = []string{"multipart/form-data"}
+	case "unregistered-media-type":
+		consumes = []string{"application/vnd.nobody-registered", "application/json"}
+	}
 	r := client.New("example.invalid", base, []string{"http"})
+	if c.Fault == "producer-fails" {
+		r.Producers["application/json"] = rt.ProducerFunc(func(w io.Writer, _ interface{}) error {
+			_, _ = w.Write([]byte(`{"half":`))
+			return errInjected
+		})
+	}
 	if c.Fault == "bad-base-path" {
 		r.BasePath = base
 	}
@@ -626,7 +641,7 @@ func runPresend(m *mon.M, c *Case) {
 		r.EnableConnectionReuse()
 	}
 	debugOn(r, c)
-	op := &rt.ClientOperation{ID: "x", Method: method, PathPattern: pattern, ConsumesMediaTypes: consumesFor(c), ProducesMediaTypes: []string{"application/json"},
+	op := &rt.ClientOperation{ID: "x", Method: method, PathPattern: pattern, ConsumesMediaTypes: consumes, ProducesMediaTypes: []string{"application/json"},
 		Params: h.params(c, baseDeadline, failWriter), Reader: h.reader(c), AuthInfo: auth, Context: context.Background()}
 	o := submitWatched(r, op, 200*baseDeadline)
 	feat := c.Fault + "/" + c.Payload
@@ -1066,6 +1081,15 @@ func enumerate(m *mon.M) []*Case {
 				cs = append(cs, &Case{Kind: "presend", Fault: f, Payload: p, Len: 700, Reuse: reuse, Reader: "all"})
 			}
 		}
+	}
+	// a value payload that no producer can encode for the chosen media type, a producer that fails half-way, a media type nobody registered
+	for _, f := range []string{"value-body-on-urlencoded", "value-body-on-multipart", "producer-fails"} {
+		for _, reuse := range []bool{false, true} {
+			cs = append(cs, &Case{Kind: "presend", Fault: f, Payload: "json", Len: 700, Reuse: reuse, Reader: "all"})
+		}
+	}
+	for _, p := range payloads {
+		cs = append(cs, &Case{Kind: "presend", Fault: "unregistered-media-type", Payload: p, Len: 700, Reader: "all"})
 	}
 	// upload-source faults at every offset
 	maxLen := 64
